@@ -19,7 +19,7 @@ C04(i) ==
 C05(i) ==
   LET e == Ev(i) IN
   IF IsStep(i) /\ ~e.pl /\ ~Legal(Pre(i).board, e.a) THEN
-    { <<"C05.invalid_continues", e.ts.type = MID>>,
+    { <<"C05.invalid_continues", ~NoMove(Pre(i).board) => e.ts.type = MID>>,   \* (an injected dead board stays dead)
       <<"C05.invalid_reward", RewardInt(e) = 0 /\ e.ts.reward.q[1] = 0>>,
       <<"C05.nothing_moved_on_its_behalf", e.s.board = Pre(i).board /\ e.s.score = Pre(i).score>> }
   ELSE {}
@@ -44,6 +44,7 @@ C09(i) ==
   ELSE {}
 
 C10(i) ==
+  IF Cfg.injected THEN {} ELSE      \* injected start states (TLC dump) are not generator outputs
   (IF IsReset(i) THEN { <<"C10.wellformed_initial_board", WellFormedInstance(A(Ev(i).s))>> } ELSE {})
   \cup C10NonConstant(i, LAMBDA s : s.board)
 
